@@ -28,10 +28,17 @@ def run(rep):
     for o in sub[:3]:
         rep.sample({"rows": o["shapes"], "survey_sheet": o["wb"]["sheets"][0], "trace_events": len(o["trace"]), "outcome": o["res"]["status"]})
     _rp.run_canaries(rep, PROP, sub, acc)
+    _rp.suite_part(rep, PROP)
 
 
 def replay(rep, case):
     c = case["case"]
+    if "suite_test" in c:
+        outs = corpus.run_forms([{"wb": c["wb"], "fmt": "dict", "shapes": ["suite"], "tag": {"suite_test": c["suite_test"]}}])
+        sub, acc, rejected = _rp.validate(rep, PROP, outs, "replay")
+        for o, l, clause in rejected:
+            rep.violation(f"{PROP}:{clause}:suite", f"trace rejected at event {l} clause {clause}", c)
+        return
     outs = corpus.run_forms([{"shapes": c["shapes"], "seed": c["seed"], "feat": c["feat"], "fmt": c["fmt"]}])
     sub, acc, rejected = _rp.validate(rep, PROP, outs, "replay")
     for o, l, clause in rejected:
